@@ -1,5 +1,4 @@
 #!/bin/bash
-# dev helper of the seeded-change campaign (works on scratch worktrees under /tmp/mut; not used by any registered check)
 # mkmut.sh <name>: scratch git worktree of /repo HEAD with the (untracked) autotools build infrastructure copied in,
 # minus the bulky test build output, so that `make` and the test suite can be run inside it.
 set -e
